@@ -5,6 +5,7 @@ update seeded/<ID>-<n>/meta.json with the current verdicts.
 
   tools/seed_recheck.py [C03-3 C04 ...]        (no argument: all; an ID selects all its seeds)
   --thorough-if-missed   run the thorough tier when the quick tier does not catch the change
+  --with C13             also run another property's check against the change (a change may break more than the property it was written for)
 """
 import argparse
 import glob
@@ -22,6 +23,7 @@ def main() -> int:
     ap = argparse.ArgumentParser()
     ap.add_argument('which', nargs='*')
     ap.add_argument('--thorough-if-missed', action='store_true')
+    ap.add_argument('--with', dest='extra', action='append', default=[], help='also run this check (of another property) against the change')
     a = ap.parse_args()
     dirs = sorted(glob.glob(os.path.join(VERIF, 'seeded', '*-*')))
     if a.which:
@@ -49,7 +51,13 @@ def main() -> int:
                     if rc.returncode == 1:
                         break
                 print(f"{name}: {meta['checks'][prop]['tier']} exit={meta['checks'][prop]['exit']} {meta['checks'][prop]['keys'][:3]}")
-                if meta['checks'][prop]['exit'] != 1:
+                for extra in a.extra:
+                    env = dict(os.environ, VERIF_REPO=dst, VERIF_EVIDENCE_DIR=os.path.join(scratch, 'evidence'), VERIF_REPLAY_DIR=os.path.join(scratch, 'replays'))
+                    rc = subprocess.run([os.path.join(VERIF, 'run'), extra, '--tier', 'quick'], cwd=VERIF, env=env, capture_output=True, text=True)
+                    keys = sorted({l.split('key=')[1].split(' ')[0] for l in rc.stdout.splitlines() if l.strip().startswith('key=')})
+                    meta['checks'][extra] = {'tier': 'quick', 'exit': rc.returncode, 'keys': keys[:12]}
+                    print(f"{name}: also {extra}: exit={rc.returncode} {keys[:3]}")
+                if not any(c.get('exit') == 1 for c in meta['checks'].values()):
                     missed += 1
             json.dump(meta, open(os.path.join(d, 'meta.json'), 'w'), indent=1)
         finally:
